@@ -776,6 +776,28 @@ func (o *Origin) allocEvents(al *ssa.Alloc) []allocEvent {
 func (o *Origin) allocContent(al *ssa.Alloc, at ssa.Instruction, _ []string) *Term {
 	evs := o.allocEvents(al)
 	typ := al.Type().Underlying().(*types.Pointer).Elem()
+	// straight-line special case (e.g. defer-spilled results: `store result; rundefers; load result; return` in one block):
+	// a whole-value store earlier in the load's own block makes every event outside [store, load] irrelevant
+	if at != nil {
+		var last *allocEvent
+		for i := range evs {
+			e := &evs[i]
+			if !e.esc && len(e.path) == 0 && e.in.Block() == at.Block() && o.instrIndex(e.in) < o.instrIndex(at) {
+				if last == nil || o.instrIndex(e.in) > o.instrIndex(last.in) {
+					last = e
+				}
+			}
+		}
+		if last != nil {
+			var kept []allocEvent
+			for _, e := range evs {
+				if e.in.Block() == at.Block() && o.instrIndex(e.in) >= o.instrIndex(last.in) && o.instrIndex(e.in) < o.instrIndex(at) {
+					kept = append(kept, e)
+				}
+			}
+			evs = kept
+		}
+	}
 	var relevant []allocEvent
 	for _, e := range evs {
 		if e.esc && strings.HasPrefix(e.escBy, "call:") {
